@@ -5,11 +5,29 @@ request: cer K m sort given coin cpath wallets addrs inputs chains seeds
    (same line as the model driver's, plus the participants' seeds; the public keys in `wallets`/`addrs` were
     derived by the harness independently of the library and are used here ONLY to name keys by participant)
 answer : W:<cosigner_id>/<cosigner order>;...  A:<redeemscript>/<address>/<owners>/<path>,...;...  X:<obs,...>;...
+
+request: cer2 K m sort given coin cpath wallets addrs chains spends opts seeds
+   chains   ops as above, every op (also the create op) yields an observation; kPR = sign(keys=[child private key of
+            participant P for address row R]) in the wallet that holds the transaction
+   given    "-" | one cosigner_id for every wallet | one entry per wallet (',', "-" = not passed)
+   wallets  per wallet (';') the supplied keys (','): who:form:pubhex; form = how the key is handed to Wallet.create:
+            M master private HDKey | m the same as WIF string | A account-level public HDKey (public_master) |
+            a the same as WIF string | R account-level PRIVATE HDKey | r the same as WIF string
+   addrs    per row (';'): change/address_index/childpub,childpub,...
+   spends   per chain (';'): rows/rbf/locktime/fee/value+value+../number_of_change_outputs/sel
+            rows = one digit per input (which address row it spends); sel = e (explicit input_arr) | a<min_confirms>
+   opts     k=v pairs (';'): nw network, afs one bit per wallet (anti_fee_sniping), dst external destinations ('+'),
+            uv / vstep=R:O amount of the unspent outputs: uv + R*row + O*ordinal (0:0 = ask the offline provider);
+            bc, dust, uv, conf are facts about the provider / network that only the model reads
+answer : W:.. A:.. as above (one A cell per row)  U:<txid:n:value+..>,<row>,..;<wallet 1 or "=">;...
+         X: per chain the observations; a state observation is <sigs>=<verified>~<raw hex>~<value:redeemscript|...>,
+            and the create op yields one too; P0 / P1~<raw hex> for send()
+Requests are independent of each other and are answered by a small pool of worker processes; every request has its
+own wallet databases AND its own service-cache database (the shared default cache is not safe for concurrent writers).
 """
-import sys, os, logging, copy
+import sys, os, logging, copy, hashlib
 sys.path.insert(0, os.path.dirname(os.path.abspath(__file__)))
 logging.disable(logging.CRITICAL)
-from common_impl import serve
 from bitcoinlib.wallets import Wallet
 from bitcoinlib.keys import HDKey
 
@@ -17,6 +35,8 @@ NW = 'bitcoinlib_test'
 OUT = '21KnydRNSmqAf8Py74mMiwRXYHGxW27zyDu'
 WT = {'L': 'legacy', 'P': 'p2sh-segwit', 'S': 'segwit'}
 COUNT = [0]
+POOL = int(os.environ.get('C10_POOL', '6'))
+MAINPID = os.getpid()        # forked workers inherit it: file names are unique per adapter process and request
 
 
 def split(c, s):
@@ -49,15 +69,13 @@ def obs_state(t, per_addr_childs, in_addrs):
     return r
 
 
-def ceremony(t):
+def ceremony(t, tagname):
     (_, k, m, sort, given, coin, cpath, wallets, addrs, inputs, chains, seeds) = t
     wt = WT[k]
     m = int(m)
     sort = sort == '1'
     given = None if given == '-' else int(given)
     cpath = int(cpath)
-    COUNT[0] += 1
-    tagname = 'c10_%d_%d' % (os.getpid(), COUNT[0])
     hd = [HDKey.from_seed(bytes.fromhex(s), network=NW, witness_type=wt) for s in seeds.split(',')]
     per_addr_childs = [a.split(',') for a in addrs.split(';')]
     ws = []
@@ -73,7 +91,8 @@ def ceremony(t):
         try:
             w = Wallet.create('%s_w%d' % (tagname, wi), kl, sigs_required=m, network=NW, witness_type=wt,
                               sort_keys=sort, cosigner_id=given,
-                              db_uri='sqlite:///%s/%s_w%d.sqlite' % (os.getcwd(), tagname, wi))
+                              db_uri='sqlite:///%s/%s_w%d.sqlite' % (os.getcwd(), tagname, wi),
+                              db_cache_uri='sqlite:///%s/%s_cache.sqlite' % (os.getcwd(), tagname))
         except Exception as ex:
             ws.append(None)
             wpart.append('ERR/' + type(ex).__name__)
@@ -161,13 +180,225 @@ def ceremony(t):
     return 'W:%s A:%s X:%s' % (';'.join(wpart), ';'.join(apart), ';'.join(xpart) if xpart else '-')
 
 
-def dispatch(t):
-    if t[0] == 'cer' and len(t) == 12:
+# ---------------------------------------------------------------- cer2: creation parameters, key forms, networks
+def supplied_key(hd, form, wt):
+    if form == 'M':
+        return hd
+    if form == 'm':
+        return hd.wif_private()
+    if form in 'Aa':
+        pub = hd.public_master(multisig=True, witness_type=wt)
+        return pub if form == 'A' else pub.wif()
+    prv = hd.public_master(multisig=True, witness_type=wt, as_private=True)
+    return prv if form == 'R' else prv.wif_private()
+
+
+def fake_utxos(address, row=0, uv=100000000, vstep=(0, 0)):
+    """two unspent outputs per address, handed to utxos_update(utxos=...) (same shape as the test provider's); the
+    amount depends on the address row and the ordinal so that no two inputs of a spend carry the same amount"""
+    return [{'address': address, 'txid': hashlib.sha256(b'%d' % n + address.encode()).hexdigest(), 'confirmations': 10,
+             'output_n': 0, 'index': 0, 'value': uv + vstep[0] * row + vstep[1] * n, 'script': ''} for n in range(2)]
+
+
+def fields_of(t):
+    """what the oracle reads: the serialised transaction, and the amount / script code the library holds per input"""
+    return '%s~%s' % (t.raw_hex(), '|'.join('%d:%s' % (i.value, i.redeemscript.hex() or '-') for i in t.inputs))
+
+
+def ceremony2(t, tagname):
+    (_, k, m, sort, given, coin, cpath, wallets, addrs, chains, spends, opts, seeds) = t
+    wt = WT[k]
+    m = int(m)
+    sort = sort == '1'
+    cpath = int(cpath)
+    opt = dict(e.split('=', 1) for e in split(';', opts))
+    nw = opt.get('nw', NW)
+    testnw = nw == NW
+    wl_txt = wallets.split(';')
+    afs = opt.get('afs', '1' * len(wl_txt))
+    dst = split('+', opt.get('dst', OUT))
+    uv = int(opt.get('uv', '100000000'))
+    vstep = tuple(int(x) for x in opt.get('vstep', '0:0').split(':'))
+    if given == '-':
+        givens = [None] * len(wl_txt)
+    elif ',' in given:
+        givens = [None if g == '-' else int(g) for g in given.split(',')]
+    else:
+        givens = [int(given)] * len(wl_txt)
+    hd = [HDKey.from_seed(bytes.fromhex(s), network=nw, witness_type=wt) for s in seeds.split(',')]
+    rows = []
+    for a in addrs.split(';'):
+        c, idx, pubs = a.split('/')
+        rows.append((int(c), int(idx), pubs.split(',')))
+    per_addr_childs = [r[2] for r in rows]
+    ws = []
+    wpart = []
+    for wi, wl in enumerate(wl_txt):
+        kl = []
+        sup = {}
         try:
-            return ceremony(t)
+            for e in wl.split(','):
+                who, form, _ = e.split(':')
+                kobj = supplied_key(hd[int(who)], form, wt)
+                kl.append(kobj)
+            # anti_fee_sniping asks the provider for the block height: off where no offline provider exists
+            w = Wallet.create('%s_w%d' % (tagname, wi), kl, sigs_required=m, network=nw, witness_type=wt,
+                              sort_keys=sort, cosigner_id=givens[wi], anti_fee_sniping=(afs[wi] == '1') and testnw,
+                              db_uri='sqlite:///%s/%s_w%d.sqlite' % (os.getcwd(), tagname, wi),
+                              db_cache_uri='sqlite:///%s/%s_cache.sqlite' % (os.getcwd(), tagname))
         except Exception as ex:
-            return 'CRASH %s %s' % (type(ex).__name__, str(ex)[:200].replace('\n', ' '))
+            ws.append(None)
+            wpart.append('ERR/' + type(ex).__name__)
+            continue
+        ws.append(w)
+        for e in wl.split(','):
+            who, form, _ = e.split(':')
+            h = hd[int(who)]
+            pb = h.public_byte if form in 'Mm' else h.public_master(multisig=True, witness_type=wt).public_byte
+            sup[pb] = who
+        order = [str(sup.get(c.main_key.key().public_byte, 'x')) for c in w.cosigner]
+        wpart.append('%s/%s' % (w.cosigner_id, '.'.join(order) if order else '-'))
+    apart = []
+    upart = []
+    wutxos = []
+    for w in ws:
+        row = []
+        if w is None:
+            apart.append('ERR')
+            upart.append('ERR')
+            wutxos.append(None)
+            continue
+        wk_row = [w.key_for_path([], cosigner_id=cpath, change=c, address_index=idx) for (c, idx, _) in rows]
+        if testnw and vstep == (0, 0):
+            w.utxos_update()
+        else:
+            w.utxos_update(utxos=[u for j, wk in enumerate(wk_row) for u in fake_utxos(wk.address, j, uv, vstep)])
+        all_utxos = w.utxos()
+        mine = [sorted([x for x in all_utxos if x['address'] == wk.address], key=lambda x: x['value']) for wk in wk_row]
+        wutxos.append(mine)
+        utxt = ','.join('+'.join('%s:%d:%d' % (x['txid'], x['output_n'], x['value']) for x in r) or '-' for r in mine)
+        upart.append('=' if upart and upart[0] == utxt else utxt)
+        for j, (c, idx, childs) in enumerate(rows):
+            wk = wk_row[j]
+            try:
+                u = mine[j][0]
+                pfee = 2000000 if nw.startswith('dogecoin') else 40000
+                tx = w.transaction_create([(wk.address, u['value'] - pfee)],
+                                          [(u['txid'], u['output_n'], u['key_id'], u['value'])], fee=pfee)
+                i = tx.inputs[0]
+                owners = '.'.join(who_of(kk.public_byte.hex(), childs) for kk in i.keys)
+                red = i.redeemscript.hex() or '-'
+            except Exception as ex:
+                owners, red = 'x', 'ERR' + type(ex).__name__
+            p = wk.path
+            p = p[2:] if p[:2] in ('m/', 'M/') else p
+            row.append('%s/%s/%s/%s' % (red, wk.address, owners, p))
+        apart.append(','.join(row))
+    xpart = []
+    sp_txt = split(';', spends)
+    for ci, ch in enumerate(split(';', chains)):
+        obs = []
+        tx = None
+        (srows, rbf, lock, fee, vals, nch, sel) = sp_txt[ci].split('/')
+        in_addrs = [int(c) for c in srows]
+        try:
+            for o in ch.split('.'):
+                if o[0] == 'c':
+                    wi = int(o[1:])
+                    w = ws[wi]
+                    outs = [(dst[j % len(dst)], int(v)) for j, v in enumerate(vals.split('+'))]
+                    kw = dict(fee=int(fee), locktime=int(lock), number_of_change_outputs=int(nch),
+                              random_output_order=False, replace_by_fee=(rbf == '1'))
+                    if sel == 'e':
+                        used = {}
+                        ins = []
+                        for a in in_addrs:
+                            u = wutxos[wi][a][used.get(a, 0)]
+                            used[a] = used.get(a, 0) + 1
+                            ins.append((u['txid'], u['output_n'], u['key_id'], u['value']))
+                        tx = w.transaction_create(outs, ins, **kw)
+                    else:
+                        tx = w.transaction_create(outs, min_confirms=int(sel[1:]), **kw)
+                        # which row each selected input spends (the model is told the rows, not the outpoints)
+                        in_addrs = []
+                        for i in tx.inputs:
+                            hit = [j for j, r in enumerate(wutxos[wi]) for x in r
+                                   if bytes.fromhex(x['txid']) == i.prev_txid and x['output_n'] == i.output_n_int]
+                            in_addrs.append(hit[0])
+                    obs.append(obs_state(tx, per_addr_childs, in_addrs) + '~' + fields_of(tx))
+                elif o == 's':
+                    tx.sign()
+                    obs.append(obs_state(tx, per_addr_childs, in_addrs) + '~' + fields_of(tx))
+                elif o == 'p':
+                    tx.send()
+                    obs.append(('P1~' + tx.raw_hex()) if tx.pushed else 'P0')
+                elif o[0] == 'k':
+                    # a cosigner signs with the child private key of ONE address (derived from his seed)
+                    ch_, idx_, _ = rows[int(o[2])]
+                    path = ("m/45'/%d/%d/%d" % (cpath, ch_, idx_)) if k == 'L' else \
+                        ("m/48'/%s'/0'/%d'/%d/%d" % (coin, 1 if k == 'P' else 2, ch_, idx_))
+                    tx.sign(keys=[hd[int(o[1])].subkey_for_path(path)])
+                    obs.append(obs_state(tx, per_addr_childs, in_addrs) + '~' + fields_of(tx))
+                else:
+                    w = ws[int(o[1:])]
+                    if o[0] == 'o':
+                        tx = w.transaction_import(tx)
+                    elif o[0] == 'd':
+                        tx = w.transaction_import(tx.as_dict())
+                    else:
+                        tx = w.transaction_import_raw(tx.raw_hex())
+                    obs.append(obs_state(tx, per_addr_childs, in_addrs) + '~' + fields_of(tx))
+        except Exception as ex:
+            obs.append('EXC:' + type(ex).__name__)
+        xpart.append(','.join(obs) if obs else '-')
+    for w in ws:
+        if w is not None:
+            try:
+                w.session.close()
+            except Exception:
+                pass
+    return 'W:%s A:%s U:%s X:%s' % (';'.join(wpart), ';'.join(apart), ';'.join(upart),
+                                    ';'.join(xpart) if xpart else '-')
+
+
+def dispatch(job):
+    n, line = job
+    t = line.strip().split(' ')
+    tagname = 'c10_%d_%d' % (MAINPID, n)
+    try:
+        if t[0] == 'cer' and len(t) == 12:
+            return ceremony(t, tagname)
+        if t[0] == 'cer2' and len(t) == 13:
+            return ceremony2(t, tagname)
+    except RecursionError:
+        return 'CRASH recursion'
+    except Exception as ex:
+        return 'CRASH %s %s' % (type(ex).__name__, str(ex)[:200].replace('\n', ' '))
     return 'BADREQ'
 
 
-serve(dispatch)
+def main():
+    lines = [l for l in sys.stdin.read().split('\n')]
+    if lines and lines[-1] == '':
+        lines.pop()
+    jobs = list(enumerate(lines))
+    out = sys.stdout
+    if POOL > 1 and len(jobs) > 1:
+        import multiprocessing
+        ctx = multiprocessing.get_context('fork')
+        # heavy requests first so that the pool drains evenly; answers are written in request order
+        order = sorted(range(len(jobs)), key=lambda i: -len(lines[i]))
+        with ctx.Pool(min(POOL, len(jobs))) as pool:
+            res = pool.map(dispatch, [jobs[i] for i in order], 1)
+        ans = [None] * len(jobs)
+        for i, r in zip(order, res):
+            ans[i] = r
+    else:
+        ans = [dispatch(j) for j in jobs]
+    for r in ans:
+        out.write(r + '\n')
+    out.flush()
+
+
+if __name__ == '__main__':
+    main()
